@@ -68,7 +68,7 @@ func TestVerifC17Handshake(t *testing.T) {
 		cases = append(cases, c)
 	}
 	ats := []int{0, 500, 2000, 4900, 5100, 7000, 9900, 10100, 12000, 14900, 15100, 20000, 26000}
-	reps := l.Pick(1, 8)
+	reps := l.Pick(1, 20)
 	for rep := 0; rep < reps; rep++ {
 		for _, cause := range []string{"dial-cancel", "server-silent", "client-silent", "transport-close", "handshake-stall"} {
 			for _, cl := range []string{"plain", "unil", "Chrome_115_IPv4", "Firefox_116A"} {
@@ -83,7 +83,7 @@ func TestVerifC17Handshake(t *testing.T) {
 	}
 	// version negotiation: the first attempt ends with a Version Negotiation packet at 10 ms, the dial is
 	// re-created and completes at about 20 ms; the cause hits around both instants
-	for rep := 0; rep < l.Pick(3, 24); rep++ {
+	for rep := 0; rep < l.Pick(3, 60); rep++ {
 		for _, cause := range []string{"dial-cancel", "transport-close", "server-silent"} {
 			for _, cl := range []string{"plain", "unil"} {
 				for _, at := range []int{9000, 9900, 10000, 10050, 10400, 11000, 12500, 14000, 16000, 19900, 20100, 23000} {
@@ -93,7 +93,7 @@ func TestVerifC17Handshake(t *testing.T) {
 		}
 	}
 	rng := l.Rand("c17hs")
-	for rep := 0; rep < l.Pick(2, 16); rep++ {
+	for rep := 0; rep < l.Pick(2, 40); rep++ {
 		for _, victim := range []string{"client", "server"} {
 			for _, cause := range []string{"peer-silent", "local-close", "transport-close"} {
 				sets := [][]string{{}, c17Calls}
